@@ -293,6 +293,26 @@ def shard(ctx: Ctx) -> None:
             for key, what in r["problems"]:
                 res.violation(f"C03/{key}", f"[session of {n_frames} frames, {clabel}] {what}"[:600], {"psk": "random", "name": b"dev".hex(), "expected": None,
                               "msgs": [[25, f"counter x {n_frames}"]], "cuts": list(cuts[:20]), "kind": "bytes", "long_session": n_frames})
+    # large reads: the application's loop was busy while a chatty device kept the (2 MiB) socket buffer filling - asyncio then hands over up to
+    # 256 KiB per data_received call, after a chunk that ended in the middle of a frame
+    if 4 <= ctx.shard < 8 or ctx.nshards < 8:
+        sizes = [(60000, 12), (20000, 30), (1200, 500), (65000, 9)][ctx.shard % 4]
+        big_msgs = [(25 + k % 3, os.urandom(sizes[0] - (k * 37) % 900)) for k in range(sizes[1])]
+        hello_len = 3 + len(noisew.NoiseServer(bytes(32), b"dev").hello_body())
+        hs_end = hello_len + 3 + 1 + 48
+        total = hs_end + sum(3 + 4 + len(p) + 16 for _, p in big_msgs)
+        plans = {"40067+242553+rest": (40067, 40067 + 242553), "partial-then-256KiB-reads": tuple(range(hs_end + 777, total, 262144)),
+                 "256KiB-reads": tuple(range(262144, total, 262144)), "whole": ()}
+        for clabel, cuts in plans.items():
+            cuts = tuple(c for c in cuts if 0 < c < total)
+            r = run_case(os.urandom(32), b"dev", None, big_msgs, cuts, "bytes")
+            res.evaluations += 1
+            res.count("chunking/large-reads/" + clabel)
+            res.count("messages_delivered_and_checked", r.get("n_delivered") or 0)
+            res.sig("large-reads", sizes, clabel)
+            for key, what in r["problems"]:
+                res.violation(f"C03/{key}", f"[{sizes[1]} messages of ~{sizes[0]} bytes, reads {clabel}] {what}"[:600], {"psk": "random", "name": b"dev".hex(), "expected": None,
+                              "msgs": [[25, f"random({sizes[0]})"]] * min(sizes[1], 20), "cuts": list(cuts[:20]), "kind": "bytes"})
     interleaved(ctx)
     try:
         from vf.props import c03_s  # noqa: PLC0415
